@@ -49,7 +49,7 @@ Section Main.
       exists st1, cden. unfold borrow_pool_rule. eapply borrow_asset_pool; eassumption.
   Qed.
 
-  Lemma step_pledged st o st' : Good cfg st -> step cfg st o = Ok st' -> pledged_rule st o st'.
+  Lemma step_pledged st o st' : Good cfg st -> step cfg st o = Ok st' -> pledged_rule cfg st o st'.
   Proof.
     intros HG H. pose proof (Good_Inv _ _ HG) as HI. destruct o; cbn [pledged_rule]; try exact I; cbn [step] in H;
       match type of H with (if ?c then _ else _) = _ => destruct c eqn:Ec; [discriminate|] end.
@@ -57,6 +57,15 @@ Section Main.
     - destruct (zget (lends st) lid) as [l0|] eqn:El.
       + destruct (close_lend_pledged cfg _ _ _ _ _ (l_avail l0) HI H) as (A & B). split; assumption.
       + unfold close_lend in H. rewrite El in H. discriminate.
+    - unfold repay_withdraw in H.
+      destruct (close_borrow cfg st user bid e) as [st1|c|] eqn:E1; cbn [obind] in H; try discriminate.
+      destruct (close_borrow_good cfg _ _ _ _ _ HG E1) as (HG1 & _).
+      destruct (zget (borrows st) bid) as [b0|] eqn:Eb; [|discriminate].
+      destruct (zget (lends st1) (b_lend b0)) as [l|] eqn:El; [|discriminate].
+      exists st1, b0. split; [reflexivity|]. split; [reflexivity|]. split.
+      + clear - E1. unfold close_borrow in E1. destr_all E1. injection E1 as <-. cbn [borrows with_bank with_books].
+        rewrite zget_zdel, Z.eqb_refl. reflexivity.
+      + eapply withdraw_pledged; [exact (Good_Inv _ _ HG1)|exact H].
   Qed.
 
   Lemma side_no_mismatch st j : Side cfg (lends st) (borrows st) -> mismatched_lend cfg st j = false.
